@@ -17,6 +17,18 @@ spec fn ev_wf<'i>(ev: Event<'i>) -> bool {
         _ => true,
     }
 }
+/// effect of one returned event on the abstract stack of open element names (C04, C05, C12):
+/// a Start pushes its name, an End pops (and, when names are checked, carries the popped name)
+spec fn stack_effect<'i>(pre: ReaderState, post: ReaderState, r: core::result::Result<Event<'i>, Error>) -> bool {
+    match r {
+        Ok(Event::Start(e)) => e.name_len <= e.buf@.len() && post.stack() == pre.stack().push(e.buf@.subrange(0, e.name_len as int)),
+        Ok(Event::End(e)) => if pre.stack().len() > 0 {
+                post.stack() == pre.stack().drop_last() && (pre.config.check_end_names ==> e.name@ == pre.stack().last())
+            } else { post.stack() == pre.stack() },
+        Ok(_) => post.stack() == pre.stack(),
+        Err(_) => true,
+    }
+}
 /// ranking function of the reader: strictly decreases with every call that `continues`
 pub open spec fn measure(st: ReaderState, rem: Seq<u8>) -> int {
     2 * rem.len() + (if st.state is InsideEmpty { 1int } else { 0int })
@@ -43,6 +55,7 @@ spec fn markup_post<'i>(pre: ReaderState, rem: Seq<u8>, post: ReaderState, rem2:
     &&& continues(r) ==> rem2.len() < rem.len() && post.offset + rem2.len() <= pre.offset + rem.len()
     // events handed out are well-formed values: their accessors cannot panic (C03)
     &&& r matches Ok(ev) ==> ev_wf(ev)
+    &&& stack_effect(pre, post, r)
     &&& if fault {
             // an I/O error: no event, position inside the construct
             &&& pre.offset <= post.offset <= pre.offset + rem.len()
